@@ -48,7 +48,11 @@ def main(tier: str) -> int:
         py_common.generate(d, d / "dsdl" / "vt")
         py_common.TYPES[:] = types
         # (Python, thorough: the array of delimited composites with capacity 2 costs minutes per length; it keeps the representative lengths)
-        tasks += [("py", "des", i, L) for i in range(len(types)) for L in cc.des_lengths(types[i], "quick" if types[i].short_name == "C_arrd" else tier)]
+        # every length for types of at most 8 bytes, the representative lengths for larger ones (a full thorough run with every length for every
+        # type exceeded 45 minutes on a loaded machine)
+        from llsym import codec as _codec
+        tasks += [("py", "des", i, L) for i in range(len(types))
+                  for L in cc.des_lengths(types[i], tier if (_codec.max_bytes(types[i]) <= 8 and types[i].short_name != "C_arrd") else "quick")]
         for res in common.pmap(_work, tasks):
             for ti, on, what, lg, tu, wall in res:
                 cc.record(rep, types[ti], on, what, lg, tu, wall, replayer=py_common.replayer(types[ti]) if on == "py" else None)
